@@ -63,7 +63,8 @@ class IC10Register:
                 return self._lifetime
 
             for node in self.nodes_writing:
-                if node.scope().name == "":
+                # a variable of the main file or of a library module lives as long as the program
+                if isinstance(node.scope(), nodes.Module):
                     self._lifetime = range(0, sys.maxsize)
                     break
 
